@@ -197,6 +197,8 @@ struct evbuf { struct SU_vector state; struct SU_vector op; };                 /
 double* g_x; unsigned g_nxgrid;
 /* std::lower_bound on the node grid: ASSUMED contract for a sorted range: smallest k with !(x[k]<xi), or n */
 static size_t sq_lower_bound(const double* x, size_t n, double xi){ size_t k=nondet_size_t(); __CPROVER_assume(k<=n && (k==n || !(x[k]<xi)) && (k==0 || x[k-1]<xi)); return k; }
+/* std::upper_bound: smallest k with xi<x[k], or n (assumed contract; the library is expected to use lower_bound -- whichever it calls is modelled) */
+static size_t sq_upper_bound(const double* x, size_t n, double xi){ size_t k=nondet_size_t(); __CPROVER_assume(k<=n && (k==n || xi<x[k]) && (k==0 || !(xi<x[k-1]))); return k; }
 static void hook_H0(const struct SQuIDS* self, double x, unsigned irho, struct SU_vector* out){ LOG(K_H0,0,irho,x,out,0,0,0,0.0); }
 static void op_assign_mul(struct SU_vector* target, const struct SU_vector* a, double s, int w){ LOG(K_MUL,0,0,s,target,a,0,w,0.0); }
 static void op_assign_evol(struct SU_vector* target, const struct SU_vector* h0, const struct SU_vector* a, double tau, int w){ LOG(K_EVOL,0,0,tau,target,h0,a,w,0.0); }
